@@ -254,6 +254,7 @@ package machine
 //@ axiom groups("^([0-9]+)\\s?[/]\\s?([0-9]+)$") == 2
 //@ axiom groups("balance\\[(.*)]") == 1
 //@ axiom groups("metadata\\[(.+)]") == 1
+//@ axiom groups("features\\[(.+)]") == 1
 
 //@ assumed func regexp.MustCompile(str string) (r *regexp.Regexp)
 //@   ensures r != nil && nsub(r) == groups(str)
